@@ -296,6 +296,7 @@ func runC01(p *Program, r *Report) {
 		r.Undec("C01.R4", "template.escapeTemplate", "", "anchor not found")
 	} else {
 		pe := newPathExplorer(p, et)
+		pe.Inline = true
 		ok := true
 		n := 0
 		stText := stateConst(p, "stateText")
